@@ -1,3 +1,5 @@
+//go:build !verifsched
+
 package props
 
 import (
@@ -32,8 +34,11 @@ func init() {
 			}
 			return append(u, "fixtures")
 		},
-		Run:    c07Run,
-		Bound:  func(tier string) map[string]any { ml, me := c07Bound(tier); return map[string]any{"max_lists": ml, "max_entries_per_list": me, "list_shapes": len(listShapes(me))} },
+		Run: c07Run,
+		Bound: func(tier string) map[string]any {
+			ml, me := c07Bound(tier)
+			return map[string]any{"max_lists": ml, "max_entries_per_list": me, "list_shapes": len(listShapes(me))}
+		},
 		Budget: dur(3*time.Minute, 20*time.Minute),
 	})
 }
